@@ -322,7 +322,7 @@ def reduction_cases(draw, tier):
         A = A * (10.0 ** np.array(e, dtype=float))[:, None, None]
     se = 0
     if not kind.startswith("graded"):
-        se = draw(st.sampled_from([0, 0, 0, 0, 0, -8, -4, 4, 8]))
+        se = draw(st.sampled_from([0, 0, 0, 0, 0, -8, -4, 4, 8, -100, 100]))
         if se:
             A = A * 10.0 ** se
     return {"A": np.ascontiguousarray(A, dtype=float), "kind": kind, "pattern": pat, "scale_exp": se}
